@@ -1,6 +1,10 @@
 """Gen table for C08: the constants that are LITERALS INSIDE utils.to_bitcoin_address and script.utils.scriptpubkey,
-read from /repo's current source by `ast` (fail-closed: any shape this reader does not recognise raises), plus the
-version byte the encoder really emits per (network, address type), observed by running it.
+read from /repo's current source by `ast`, plus the version byte the encoder really emits per (network, address type),
+observed by running it.  When the syntactic reader of a table does not recognise the shape of the code (a harmless
+refactoring) and the table is a FINITE function of the code's behaviour, a behavioural probe determines it instead
+(all 256 version bytes, payload lengths 0..80, the two version-0 program lengths, the 3 x 2 encoder table); the order of
+the three classifier tests has no finite probe and its reader fails closed (it recognises if/elif chains and sequences
+of early-return ifs).  The generated file records which way each table was obtained (`translator_mode`).
 
   to_bitcoin_address: the if/elif chain  `network == "mainnet" and addr_type == "p2pkh": version = b"\\x00"` ...
   scriptpubkey:       `version in [b"\\x00", b"\\x6f"]` -> p2pkh_script_pubkey ; `version in [b"\\x05", b"\\xc4"]` ->
@@ -72,12 +76,9 @@ def encoder_versions(fn):
     return sorted(rows)
 
 
-def dispatcher_tables(fn):
-    """version-byte lists per builder, the hrp list, the special program lengths and the test order of scriptpubkey"""
-    f = _fn_ast(fn)
+# ---------------------------------------------------------------- syntactic readers of scriptpubkey (each fails closed)
+def syn_versions(f):
     vers = {}
-    hrps = None
-    lengths = []
     for node in ast.walk(f):
         if isinstance(node, ast.If) and isinstance(node.test, ast.Compare) and isinstance(node.test.left, ast.Name) \
                 and node.test.left.id == "version" and isinstance(node.test.ops[0], ast.In):
@@ -87,10 +88,24 @@ def dispatcher_tables(fn):
             assert name not in vers, "two branches for " + name
             vers[name] = _bytes_list(node.test.comparators[0])
             assert all(len(v) == 1 for v in vers[name]), vers[name]
+    assert set(vers) == {"p2pkh_script_pubkey", "p2sh_script_pubkey"}, vers
+    return vers
+
+
+def syn_hrps(f):
+    hrps = None
+    for node in ast.walk(f):
         if isinstance(node, ast.Assert) and isinstance(node.test, ast.Compare) and isinstance(node.test.left, ast.Name) \
                 and node.test.left.id == "hrp":
             assert hrps is None and isinstance(node.test.ops[0], ast.In)
             hrps = _bytes_list(node.test.comparators[0])
+    assert hrps is not None, "hrp assertion not found"
+    return hrps
+
+
+def syn_lengths(f):
+    lengths = []
+    for node in ast.walk(f):
         if isinstance(node, ast.If) and isinstance(node.test, ast.Compare) and isinstance(node.test.ops[0], ast.Eq) \
                 and isinstance(node.test.left, ast.Call) and getattr(node.test.left.func, "id", None) == "len":
             c = node.test.comparators[0]
@@ -98,7 +113,12 @@ def dispatcher_tables(fn):
             calls = _called_names(node.body) & {"p2wpkh_script_pubkey", "p2wsh_script_pubkey"}
             assert len(calls) == 1, calls
             lengths.append((c.value, calls.pop()))
-    # `if len(payload) != N: raise ...` in front of the version-byte dispatch
+    assert len(lengths) == 2, lengths
+    return sorted(lengths)
+
+
+def syn_plen(f):
+    """`if len(payload) != N: raise ...` in front of the version-byte dispatch"""
     plen = []
     for node in ast.walk(f):
         if isinstance(node, ast.If) and isinstance(node.test, ast.Compare) and isinstance(node.test.ops[0], ast.NotEq) \
@@ -111,24 +131,169 @@ def dispatcher_tables(fn):
             name = exc.func.id if isinstance(exc, ast.Call) else getattr(exc, "id", None)
             plen.append((c.value, name))
     assert len(plen) == 1, "expected exactly one `if len(payload) != N: raise`, found %r" % plen
-    assert set(vers) == {"p2pkh_script_pubkey", "p2sh_script_pubkey"}, vers
-    assert hrps is not None, "hrp assertion not found"
-    assert len(lengths) == 2, lengths
-    # order of the top-level tests: the if / elif chain that is the function's last statement
-    top = [s for s in f.body if isinstance(s, ast.If)]
-    assert len(top) == 1, "expected one top-level if-chain"
+    return plen[0]
+
+
+def _terminates(body):
+    """control never falls out of the end of this statement list"""
+    if not body:
+        return False
+    last = body[-1]
+    if isinstance(last, (ast.Return, ast.Raise)):
+        return True
+    if isinstance(last, ast.If):
+        return bool(last.orelse) and _terminates(last.body) and _terminates(last.orelse)
+    return False
+
+
+ORDER_NAMES = ("is_point", "is_base58check", "is_segwit_addr")
+
+
+def syn_order(f):
+    """order in which the function body applies its classifier tests.  Recognised shapes (and mixtures): ONE
+    if / elif / ... / else: raise chain, or a SEQUENCE of `if test(data): ... return` statements whose bodies never
+    fall through, ended by a raise.  The tests must be calls of the three classifiers, each exactly once."""
+    stmts = [s for s in f.body if not (isinstance(s, ast.Expr) and isinstance(s.value, ast.Constant))]
     order = []
-    node = top[0]
-    while True:
-        t = node.test
-        assert isinstance(t, ast.Call), ast.dump(t)
-        order.append(t.func.attr if isinstance(t.func, ast.Attribute) else t.func.id)
-        if len(node.orelse) == 1 and isinstance(node.orelse[0], ast.If):
-            node = node.orelse[0]
-        else:
-            assert node.orelse and isinstance(node.orelse[0], ast.Raise), "the chain must end in a raise"
+
+    def name_of(t):
+        assert isinstance(t, ast.Call) and len(t.args) == 1 and not t.keywords, "test is not a one-argument call: " + ast.dump(t)
+        assert isinstance(t.args[0], ast.Name) and t.args[0].id == f.args.args[0].arg, "test is not applied to the input"
+        return t.func.attr if isinstance(t.func, ast.Attribute) else t.func.id
+
+    ended = False
+    for i, s in enumerate(stmts):
+        last = i == len(stmts) - 1
+        if isinstance(s, ast.Raise):
+            assert last, "statements after the final raise"
+            ended = True
             break
-    return vers, hrps, sorted(lengths), order, plen[0]
+        assert isinstance(s, ast.If), "unexpected top-level statement: " + type(s).__name__
+        node, bodies = s, []
+        while True:
+            order.append(name_of(node.test))
+            bodies.append(node.body)
+            if len(node.orelse) == 1 and isinstance(node.orelse[0], ast.If):
+                node = node.orelse[0]
+                continue
+            break
+        if node.orelse:
+            assert last and _terminates(node.orelse), "a final else must end the function"
+            # what the else branch does is not a classifier test: it must refuse
+            assert all(isinstance(x, ast.Raise) for x in node.orelse), "the final else must raise"
+            ended = True
+        else:
+            assert all(_terminates(b) for b in bodies), "a branch may fall through to the next test"
+    assert ended, "the function must end by raising for unclassified input"
+    assert sorted(order) == sorted(ORDER_NAMES), "tests found: %r" % (order,)
+    return order
+
+
+# ---------------------------------------------------------------- behavioural probes (finite domains), used only when the
+# syntactic reader does not recognise the shape of the code
+def _h4(p):
+    return hashlib.sha256(hashlib.sha256(p).digest()).digest()[:4]
+
+
+def _b58encode(b):
+    alpha = b"123456789ABCDEFGHJKLMNPQRSTUVWXYZabcdefghijkmnopqrstuvwxyz"
+    n = int.from_bytes(b, "big")
+    out = b""
+    while n:
+        n, r = divmod(n, 58)
+        out = alpha[r:r + 1] + out
+    return b"1" * (len(b) - len(b.lstrip(b"\0"))) + out
+
+
+def _b58check(payload):
+    return _b58encode(payload + _h4(payload))
+
+
+_PROBE_HASHES = [bytes(range(1, 21)), hashlib.new("sha1", b"gen_c08 probe").digest(), bytes(20), b"\xff" * 20]
+
+
+def _classify_b58(spk, v, h):
+    """what scriptpubkey does with base58check(v || h): 'p2pkh' | 'p2sh' | ('refused', class name)"""
+    try:
+        s = spk(_b58check(bytes([v]) + h))
+    except Exception as e:          # noqa
+        return ("refused", type(e).__name__)
+    if len(h) == 20 and s == b"\x76\xa9\x14" + h + b"\x88\xac":
+        return "p2pkh"
+    if len(h) == 20 and s == b"\xa9\x14" + h + b"\x87":
+        return "p2sh"
+    raise AssertionError("version byte %02x, %d-byte payload: unclassifiable script %s" % (v, len(h), s.hex()))
+
+
+def probe_versions(spk):
+    """all 256 version bytes x a few 20-byte hashes, classified by the template that comes out"""
+    vers = {"p2pkh_script_pubkey": [], "p2sh_script_pubkey": []}
+    for v in range(256):
+        kinds = {(_classify_b58(spk, v, h) if isinstance(_classify_b58(spk, v, h), str) else "refused") for h in _PROBE_HASHES}
+        assert len(kinds) == 1, "version byte %02x: behaviour depends on the payload: %r" % (v, kinds)
+        k = kinds.pop()
+        if k == "p2pkh":
+            vers["p2pkh_script_pubkey"].append(bytes([v]))
+        elif k == "p2sh":
+            vers["p2sh_script_pubkey"].append(bytes([v]))
+    assert vers["p2pkh_script_pubkey"] and vers["p2sh_script_pubkey"], vers
+    return vers
+
+
+def probe_plen(spk, vers):
+    """payload lengths 0..80 under every accepted version byte: exactly one length is accepted"""
+    found = set()
+    classes = set()
+    for name in sorted(vers):
+        for vb in vers[name]:
+            ok = []
+            for L in range(0, 81):
+                h = (hashlib.sha512(b"gen_c08 %d" % L).digest() * 2)[:L]
+                try:
+                    spk(_b58check(vb + h))
+                    ok.append(L)
+                except Exception as e:      # noqa
+                    classes.add(type(e).__name__)
+            assert len(ok) == 1, "version %s accepts payload lengths %r" % (vb.hex(), ok)
+            found.add(ok[0])
+    assert len(found) == 1 and len(classes) == 1, (found, classes)
+    return (found.pop(), classes.pop())
+
+
+def probe_lengths(spk):
+    """version-0 programs of 20 / 32 bytes, classified by template (00 14 <20> = P2WPKH, 00 20 <32> = P2WSH)"""
+    import c08
+    out = []
+    for L, name, head in ((20, "p2wpkh_script_pubkey", b"\x00\x14"), (32, "p2wsh_script_pubkey", b"\x00\x20")):
+        for hrp in ("bc", "tb", "bcrt"):
+            prog = hashlib.sha256(b"gen_c08 prog %d %s" % (L, hrp.encode())).digest()[:L]
+            s = spk(c08.ref_segwit_encode(hrp, 0, prog))
+            assert s == head + prog, "v0 %d-byte program: script %s" % (L, s.hex())
+        out.append((L, name))
+    # ... and no other version-0 length has a branch
+    for L in [x for x in range(2, 41) if x not in (20, 32)]:
+        try:
+            s = spk(c08.ref_segwit_encode("bc", 0, bytes(L)))
+        except Exception:       # noqa
+            continue
+        raise AssertionError("v0 %d-byte program accepted: %s" % (L, s.hex()))
+    return out
+
+
+def gate_hrps(spk, order, u):
+    """the segwit branch is guarded by is_segwit_addr (established by syn_order: input that fails the test reaches the
+    final raise), so the human-readable parts scriptpubkey can accept are among those of assert_valid_segwit (read like
+    Gen/Bech32Gen.v reads them, failing closed); every one of them is probed to BE accepted, so the two sets are equal"""
+    import c08
+    import gen_c06
+    assert "is_segwit_addr" in order
+    gate = gen_c06._bytes_list_in(u.assert_valid_segwit)
+    for h in gate:
+        for v, L in ((0, 20), (0, 32), (1, 32), (16, 2)):
+            prog = hashlib.sha256(b"gen_c08 hrp" + h).digest()[:L]
+            s = spk(c08.ref_segwit_encode(h.decode(), v, prog))
+            assert s == bytes([0 if v == 0 else 0x50 + v, L]) + prog, (h, v, s.hex())
+    return list(gate)
 
 
 def _b58decode(s):
@@ -140,15 +305,29 @@ def _b58decode(s):
     return b"\0" * (len(s) - len(s.lstrip(b"1"))) + body
 
 
+def _try(reader, fallback, modes, key, fallback_mode="probe"):
+    """the syntactic reader; the behavioural probe only when the reader does not recognise the code's shape"""
+    try:
+        v = reader()
+        modes[key] = "syntactic"
+        return v
+    except Exception as e:      # noqa
+        if fallback is None:
+            raise
+        v = fallback()
+        modes[key] = fallback_mode
+        modes[key + "_reader_said"] = ("%s: %s" % (type(e).__name__, e))[:120].replace("*)", "* )").replace("(*", "( *")
+        return v
+
+
 def register(gt):
     @gt.table("AddressGen")
     def gen_address():
         gt.load()
         import bits.utils as u
         import bits.script.utils as su
-        rows = encoder_versions(u.to_bitcoin_address)
-        vers, hrps, lengths, order, plen = dispatcher_tables(su.scriptpubkey)
-        # what the encoder emits (independent Base58 decoding, hashlib checksum)
+        modes = {}
+        # what the encoder emits (independent Base58 decoding, hashlib checksum): 3 networks x 2 types, a finite table
         emitted = []
         for net in ("mainnet", "testnet", "regtest"):
             for ty in ("p2pkh", "p2sh"):
@@ -157,7 +336,17 @@ def register(gt):
                 assert len(raw) == 25 and raw[1:21] == bytes(range(20)), raw
                 assert raw[21:] == hashlib.sha256(hashlib.sha256(raw[:21]).digest()).digest()[:4]
                 emitted.append((net, ty, raw[:1]))
+        rows = _try(lambda: encoder_versions(u.to_bitcoin_address), lambda: sorted(emitted), modes, "encoder_versions")
+        spk = su.scriptpubkey
+        f = _fn_ast(spk)
+        order = _try(lambda: syn_order(f), None, modes, "dispatch_order")        # no finite probe exists: fail closed
+        vers = _try(lambda: syn_versions(f), lambda: probe_versions(spk), modes, "dispatch_versions")
+        plen = _try(lambda: syn_plen(f), lambda: probe_plen(spk, vers), modes, "dispatch_payload_length")
+        lengths = _try(lambda: syn_lengths(f), lambda: probe_lengths(spk), modes, "dispatch_lengths")
+        hrps = _try(lambda: syn_hrps(f), lambda: gate_hrps(spk, order, u), modes, "dispatch_hrps",
+                    fallback_mode="is_segwit_addr-gate+probe")
         out = gt.HEADER
+        out += "(* translator_mode: %s *)\n" % "; ".join("%s=%s" % (k, modes[k]) for k in sorted(modes))
         triple = lambda r: "(%s, %s, %s)" % (gt.coq_string_bytes(r[0]), gt.coq_string_bytes(r[1]), gt.coq_bytes(r[2]))
         out += "Definition encoder_versions : list (bytes * bytes * bytes) :=\n  %s.\n" % gt.coq_list(triple(r) for r in rows)
         out += "Definition emitted_versions : list (bytes * bytes * bytes) :=\n  %s.\n" % gt.coq_list(
